@@ -265,9 +265,16 @@ where
             self.my_id, request
         );
         let current_term = state_snapshot.current_term;
-        let mut last_log_id_option = raft_log.last_log_id();
+        // Raft §5.3: only the entries up to the last one covered by THIS request are known to
+        // match the leader. Whatever the follower holds beyond prev_log_index + entries.len() is
+        // unverified (it may be a stale tail), so neither the acknowledged match position nor the
+        // commit index may be derived from the follower's whole last log index.
+        let last_new_index = request.prev_log_index.saturating_add(request.entries.len() as u64);
+        let mut last_log_id_option = (request.prev_log_index > 0).then_some(LogId {
+            term: request.prev_log_term,
+            index: request.prev_log_index,
+        });
 
-        //if there is no new entries need to insert, we just return the last local log index
         let mut commit_index_update = None;
 
         let response = self.check_append_entries_request_is_legal(current_term, &request, raft_log);
@@ -297,11 +304,15 @@ where
                 .await?;
         }
 
+        // min(leader_commit, index of last new entry); never move the commit index backwards
+        // (a re-sent capped request covers less than what is already committed).
         if let Some(new_commit_index) = Self::if_update_commit_index_as_follower(
             state_snapshot.commit_index,
-            raft_log.last_entry_id(),
+            last_new_index,
             request.leader_commit_index,
-        ) {
+        )
+        .filter(|c| *c > state_snapshot.commit_index)
+        {
             debug!("new commit index received: {:?}", new_commit_index);
             commit_index_update = Some(new_commit_index);
         }
